@@ -341,9 +341,20 @@ var rTreeRec = &Rule{
 		}
 		nAl := 0
 		for _, al := range allocsIn(dlr, ol) {
+			// where the plain leaf is handed out as the error (the value may be built earlier and also serve as the
+			// embedded part of the multi-cause fallback)
+			var boxed []*ssa.BasicBlock
+			for _, r := range *al.Referrers() {
+				if mi, ok := r.(*ssa.MakeInterface); ok && mi.X == ssa.Value(al) {
+					boxed = append(boxed, mi.Block())
+				}
+			}
+			if len(boxed) == 0 {
+				continue
+			}
 			nAl++
 			zero, why := false, "no test of len(enc.MultierrorCauses) dominates it"
-			for _, l := range dlr.lits(al.Block()) {
+			for _, l := range dlr.lits(boxed[0]) {
 				bo, ok := l.V.(*ssa.BinOp)
 				if !ok || !isMCLen(bo.X) {
 					continue
